@@ -4,7 +4,7 @@
 
    pieces : a line is a blank-separated list of pieces  kindindex:cp,cp,cp  (decimal TokenKind index in
             the enum order of the CURRENT token_kind.rs, decimal Unicode scalar values; the lexeme of a
-            piece is never empty).  Output:  <d-bits> <not_merged> <separated> <v-bits> <outside_known>
+            piece is never empty).  Output:  <d-bits> <not_merged> <separated> <v-bits> <outside_known> <no_conservative>
             d-bits = valid_piece_d of every piece (one 0/1 character per piece, "-" for the empty list),
             v-bits = valid_piece of every piece (directives excluded),
             outside_known = 1 when no piece is in the known class D26 (an Id that begins with 0x / 0b).
@@ -13,7 +13,10 @@
    tables : no input; prints one line per entry of the specification's tables:
             <table> <kindindex> <spelling>   with table in keywords bangs puncts directives, and
             word <spelling> for directive_words.
-   kinds  : no input; prints  <index> <name>  for every TokenKind of the specification's kind type. *)
+   kinds  : no input; prints  <index> <name>  for every TokenKind of the specification's kind type.
+   uni    : a line is a blank-separated list of scalar values; output: for each value two 0/1 characters
+            (Chars.is_whitespace, Chars.is_alphabetic of the lexer MODEL), values separated by blanks.
+   unitables : no input; prints  whitespace lo hi  /  alphabetic lo hi  for every row of the generated tables. *)
 type ostring = Stdlib.String.t
 open Lexspec_core
 type cstring = Lexspec_core.string
@@ -62,8 +65,8 @@ let piece_of_string (s : ostring) : piece =
 let cmd_pieces line =
   let ps = List.map piece_of_string (split_on ' ' line) in
   let bits f = if ps = [] then "-" else String.concat "" (List.map (fun p -> bit (f p)) ps) in
-  Printf.sprintf "%s %s %s %s %s" (bits valid_piece_d) (bit (not_merged ps)) (bit (separated ps)) (bits valid_piece)
-    (bit (outside_known ps))
+  Printf.sprintf "%s %s %s %s %s %s" (bits valid_piece_d) (bit (not_merged ps)) (bit (separated ps)) (bits valid_piece)
+    (bit (outside_known ps)) (bit (no_conservative ps))
 
 let split_bar (line : ostring) : ostring * ostring =
   match String.index_opt line '|' with
@@ -79,6 +82,9 @@ let cmd_follow line =
   let (ks, ts) = split_bar line in
   bit (follow_ok (kind_of_index (int_of_string ks)) (text_of_line ts))
 
+let cmd_uni line =
+  String.concat " " (List.map (fun c -> bit (is_whitespace c) ^ bit (is_alphabetic c)) (text_of_line line))
+
 let print_table name tbl =
   List.iter (fun (s, k) -> Printf.printf "%s %d %s\n" name (int_of_n (tk_index k)) (ocaml_string s)) tbl
 
@@ -93,4 +99,8 @@ let () =
       List.iter (fun s -> Printf.printf "word %s\n" (ocaml_string s)) directive_words
   | [| _; "kinds" |] ->
       List.iter (fun k -> Printf.printf "%d %s\n" (int_of_n (tk_index k)) (ocaml_string (tk_name k))) all_token_kinds
-  | _ -> prerr_endline "usage: lexspec_run pieces|tok|follow|tables|kinds"; exit 2
+  | [| _; "uni" |] -> each_line cmd_uni
+  | [| _; "unitables" |] ->
+      List.iter (fun (a, b) -> Printf.printf "whitespace %d %d\n" (int_of_n a) (int_of_n b)) whitespace_ranges;
+      List.iter (fun (a, b) -> Printf.printf "alphabetic %d %d\n" (int_of_n a) (int_of_n b)) alphabetic_ranges
+  | _ -> prerr_endline "usage: lexspec_run pieces|tok|follow|tables|kinds|uni|unitables"; exit 2
